@@ -1225,7 +1225,7 @@ pub fn gen_limits(rng: &mut Rng, a: &mut AlgorithmConfig) {
 
 pub fn gen_kernel_freq(rng: &mut Rng, max: f64) -> f64 {
     let s = if rng.bool() { 1.0 } else { -1.0 };
-    s * match rng.below(8) {
+    let f: f64 = match rng.below(8) {
         0 | 1 => 0.0,
         2 => max,
         3 => 10.0 * max,
@@ -1233,7 +1233,9 @@ pub fn gen_kernel_freq(rng: &mut Rng, max: f64) -> f64 {
         5 => 1e-12,
         6 => max * rng.f64_range(0.0, 1.0),
         _ => max * (1.0 + 1e-12),
-    }
+    };
+    // a kernel cannot report more than a 10 % frequency error (tick adjustment limit)
+    s * f.min(0.1)
 }
 
 
@@ -1252,7 +1254,7 @@ pub fn gen_freq_stress_spec(rng: &mut Rng, max_meas: u64) -> Spec {
     spec.hw_drift = match rng.below(5) {
         0 => 0.0,
         1 => rng.f64_range(-1.0, 1.0) * 1e-5,
-        2 => rng.f64_range(-2.0, 2.0) * max,
+        2 => (rng.f64_range(-2.0, 2.0) * max).clamp(-0.02, 0.02),
         3 => *rng.pick(&[1e-3, -1e-3, 1e-2, -1e-2]),
         _ => rng.f64_range(-1.0, 1.0) * max * 0.9,
     };
@@ -1270,7 +1272,7 @@ pub fn gen_freq_stress_spec(rng: &mut Rng, max_meas: u64) -> Spec {
     let common_drift = match rng.below(4) {
         0 => 0.0,
         1 => rng.f64_range(-1.0, 1.0) * 1e-4,
-        2 => rng.f64_range(-3.0, 3.0) * max,
+        2 => (rng.f64_range(-3.0, 3.0) * max).clamp(-0.02, 0.02),
         _ => *rng.pick(&[1e-2, -1e-2, 1e-3, -1e-3]),
     };
     let poll = *rng.pick(&[0.0015, 0.01, 0.25, 1.0, 2.0, 16.0]);
